@@ -187,6 +187,11 @@ def replay_history(chk, family, h0, steps, where=None):
     """Replays one history on the real classes. Returns the number of steps compared.
     Every name is compared with the spec heap after every step; the first failing step ends the history."""
     heap = {n: build(family, h0[n]) for n in ("a", "b", "c")}
+    if h0.get("zero") in ("a", "b") and heap[h0["zero"]] is not None:
+        # representation only: an explicit zero-coefficient entry (the abstract value is unchanged)
+        zt = key_to_term(family, h0["zkey"])
+        if zt not in heap[h0["zero"]].terms:
+            heap[h0["zero"]].terms[zt] = 0.0
     exp = {n: h0[n] for n in ("a", "b", "c")}
     case = {"kind": "history", "family": family, "h0": h0, "steps": steps}
     done = 0
@@ -289,6 +294,7 @@ Thirds <- %(thirds)s
 Scalars <- %(scalars)s
 Ops <- OpsAll
 Targets <- %(targets)s
+ZeroReps <- %(zero)s
 Export = "%(export)s"
 INIT Init
 NEXT Next
@@ -300,10 +306,10 @@ PROPERTY FrameOK
 
 
 def heap_cfg(fam, depth, clsa="ClsMain", clsb="ClsMain", valsa="ValsOnlyA", valsb="ValsOnlyB", thirds="ThirdNull",
-             scalars="ScalarsAll", targets="TargetsC", export="leaf", view=False, mt=4, ml=6, bound=64):
+             scalars="ScalarsAll", targets="TargetsC", export="leaf", view=False, mt=4, ml=6, bound=64, zero="ZeroNone"):
     return HEAP_CFG % dict(fam=fam, depth=depth, clsa=clsa, clsb=clsb, valsa=valsa, valsb=valsb, thirds=thirds,
                            scalars=scalars, targets=targets, export=export, extra="VIEW View" if view else "",
-                           mt=mt, ml=ml, bound=bound)
+                           mt=mt, ml=ml, bound=bound, zero=zero)
 
 
 def heap_runs(chk):
@@ -313,7 +319,14 @@ def heap_runs(chk):
     for fam in ("F", "Q"):
         # every single step from every class/annotation combination (both operands), two value choices each
         runs.append(dict(tag="%s_d1_allcls" % fam, fam=fam, module="C16OperatorHeap", workers=W,
-                         cfg=heap_cfg(fam, 1, "ClsAll", "ClsAll", "ValsAB", "ValsAB", "ThirdNull", targets="TargetsAC")))
+                         cfg=heap_cfg(fam, 1, "ClsAll", "ClsAll", "ValsAZ", "ValsAB", "ThirdNull", targets="TargetsAC",
+                                      zero="ZeroNone" if quick else "ZeroAll")))
+        # all histories of length 2 whose left operand starts EMPTY (no terms) / identity-only: "op with an empty left
+        # operand, then an in-place op on the result" - a result that adopted an operand's dictionary shows as a frame violation
+        runs.append(dict(tag="%s_d2_empty" % fam, fam=fam, module="C16OperatorHeap", workers=W + 2,
+                         cfg=heap_cfg(fam, 2, "ClsSmall" if quick else "ClsMain", "ClsSmall", "ValsZero" if quick else "ValsZeroId",
+                                      "ValsOnlyB" if quick else "ValsBZ", scalars="ScalarsOne", targets="TargetsC" if quick else "TargetsAC",
+                                      zero="ZeroNone" if quick else "ZeroAll")))
         # all histories of length 2 on shared operands
         runs.append(dict(tag="%s_d2" % fam, fam=fam, module="C16OperatorHeap", workers=W + 2,
                          cfg=heap_cfg(fam, 2, "ClsMain", "ClsSmall", scalars="ScalarsOne" if quick else "ScalarsAll",
@@ -321,7 +334,7 @@ def heap_runs(chk):
         # chains of length 10 (random), initial values from the generated pool
         runs.append(dict(tag="%s_sim" % fam, fam=fam, module="C16OperatorHeap", workers=1,
                          simulate="num=%d" % (60 if quick else 2000), depth=11, seed=chk.seed + (3 if fam == "F" else 5),
-                         cfg=heap_cfg(fam, 10, "ClsAll", "ClsMain", "Vals1", "ValsFixed", "ThirdNull", targets="TargetsAC", scalars="ScalarsAll",
+                         cfg=heap_cfg(fam, 10, "ClsAll", "ClsMain", "Vals1Z", "ValsFixed", "ThirdNull", targets="TargetsAC", scalars="ScalarsAll",
                                       mt=6, ml=8, bound=4096)))
         if not quick:
             # every transition out of every distinct heap reachable in 3 steps (one representative history each)
@@ -369,7 +382,7 @@ def run_heap(chk):
         total_s += nsteps
         if len(chk.cov["samples"]) < 3:
             h = hs[len(hs) // 2]
-            chk.sample({"history": {"family": r["fam"], "h0": {k: h["h0"][k]["cls"] for k in h["h0"]},
+            chk.sample({"history": {"family": r["fam"], "h0": {k: h["h0"][k]["cls"] for k in ("a", "b", "c")},
                                     "steps": [{k: s[k] for k in ("kind", "op", "r", "xn", "xs", "yn", "ys", "out")} for s in h["steps"]]}})
         res.out = ""      # free memory
     chk.part("heap_total", histories=total_h, steps_compared=total_s)
